@@ -45,15 +45,23 @@ type kvAddData struct {
 // AddVertex adds an edge to the graph, if it already exists
 // in the graph, it is replaced
 func (kgdb *KVInterfaceGDB) AddVertex(vertices []*gdbi.Vertex) error {
+	var bulkErr *multierror.Error
+	inserted := 0
+	// vertices that replace a stored vertex under another label are written
+	// in their own transaction, the others in one batch
+	batch := make([]*gdbi.Vertex, 0, len(vertices))
 	for _, vert := range vertices {
-		if err := kgdb.removeStaleVertex(vert.ToVertex()); err != nil {
-			return err
+		done, err := kgdb.replaceVertex(vert.ToVertex())
+		if err != nil {
+			bulkErr = multierror.Append(bulkErr, err)
+		} else if done {
+			inserted++
+		} else {
+			batch = append(batch, vert)
 		}
 	}
 	err := kgdb.kvg.kv.BulkWrite(func(tx kvi.KVBulkWrite) error {
-		var bulkErr *multierror.Error
-		inserted := 0
-		for _, vert := range vertices {
+		for _, vert := range batch {
 			if err := insertVertex(tx, kgdb.kvg.idx, kgdb.graph, vert.ToVertex()); err != nil {
 				bulkErr = multierror.Append(bulkErr, err)
 			} else {
@@ -97,43 +105,53 @@ func (kgdb *KVInterfaceGDB) findEdgeKey(eid string) []byte {
 	return ekey
 }
 
-// removeStaleVertex prepares the replacement of a stored vertex: a vertex
-// stored under another label loses its old label-index entry. It writes to
-// the store, so it must not be called inside a BulkWrite.
-func (kgdb *KVInterfaceGDB) removeStaleVertex(vertex *gripql.Vertex) error {
+// replaceVertex stores a vertex that replaces a stored vertex with another
+// label: the old label-index entry is deleted and the new record written in
+// one transaction. It reports whether it handled the vertex. It opens its own
+// transaction, so it must not be called inside a BulkWrite.
+func (kgdb *KVInterfaceGDB) replaceVertex(vertex *gripql.Vertex) (bool, error) {
 	if err := vertex.Validate(); err != nil {
-		return nil
+		return false, nil
 	}
-	if old := kgdb.GetVertex(vertex.Gid, false); old != nil && old.Label != vertex.Label {
-		if err := kgdb.kvg.kv.Delete(labelEntryKey(kgdb.graph, "v", old.Label, vertex.Gid)); err != nil {
+	old := kgdb.GetVertex(vertex.Gid, false)
+	if old == nil || old.Label == vertex.Label {
+		return false, nil
+	}
+	err := kgdb.kvg.kv.Update(func(tx kvi.KVTransaction) error {
+		if err := tx.Delete(labelEntryKey(kgdb.graph, "v", old.Label, vertex.Gid)); err != nil {
 			return fmt.Errorf("AddVertex Error %s", err)
 		}
-	}
-	return nil
+		return insertVertex(tx, kgdb.kvg.idx, kgdb.graph, vertex)
+	})
+	return true, err
 }
 
-// removeStaleEdge prepares the replacement of a stored edge: the edge key
-// embeds endpoints and label, so an edge stored with other endpoints or
-// another label has to lose its old record. It writes to the store, so it
+// replaceEdge stores an edge that replaces a stored edge with other endpoints
+// or another label. The edge key embeds endpoints and label, so the old
+// record has to go: it is deleted and the new one written in one transaction.
+// It reports whether it handled the edge. It opens its own transaction, so it
 // must not be called inside a BulkWrite.
-func (kgdb *KVInterfaceGDB) removeStaleEdge(edge *gripql.Edge) error {
+func (kgdb *KVInterfaceGDB) replaceEdge(edge *gripql.Edge) (bool, error) {
 	if err := edge.Validate(); err != nil {
-		return nil
+		return false, nil
 	}
-	if old := kgdb.findEdgeKey(edge.Gid); old != nil {
-		_, _, sid, did, label, etype := EdgeKeyParse(old)
-		if sid != edge.From || did != edge.To || label != edge.Label {
-			return kgdb.kvg.kv.Update(func(dtx kvi.KVTransaction) error {
-				for _, k := range edgeKeys(kgdb.graph, edge.Gid, sid, did, label, etype) {
-					if err := dtx.Delete(k); err != nil {
-						return err
-					}
-				}
-				return nil
-			})
+	old := kgdb.findEdgeKey(edge.Gid)
+	if old == nil {
+		return false, nil
+	}
+	_, _, sid, did, label, etype := EdgeKeyParse(old)
+	if sid == edge.From && did == edge.To && label == edge.Label {
+		return false, nil
+	}
+	err := kgdb.kvg.kv.Update(func(tx kvi.KVTransaction) error {
+		for _, k := range edgeKeys(kgdb.graph, edge.Gid, sid, did, label, etype) {
+			if err := tx.Delete(k); err != nil {
+				return err
+			}
 		}
-	}
-	return nil
+		return insertEdge(tx, kgdb.kvg.idx, kgdb.graph, edge)
+	})
+	return true, err
 }
 
 func insertVertex(tx kvi.KVBulkWrite, idx *kvindex.KVIndex, graph string, vertex *gripql.Vertex) error {
@@ -198,15 +216,23 @@ func insertEdge(tx kvi.KVBulkWrite, idx *kvindex.KVIndex, graph string, edge *gr
 // AddEdge adds an edge to the graph, if the id is not "" and in already exists
 // in the graph, it is replaced
 func (kgdb *KVInterfaceGDB) AddEdge(edges []*gdbi.Edge) error {
+	var bulkErr *multierror.Error
+	inserted := 0
+	// edges that replace a stored edge with other endpoints or another label
+	// are written in their own transaction, the others in one batch
+	batch := make([]*gdbi.Edge, 0, len(edges))
 	for _, edge := range edges {
-		if err := kgdb.removeStaleEdge(edge.ToEdge()); err != nil {
-			return err
+		done, err := kgdb.replaceEdge(edge.ToEdge())
+		if err != nil {
+			bulkErr = multierror.Append(bulkErr, err)
+		} else if done {
+			inserted++
+		} else {
+			batch = append(batch, edge)
 		}
 	}
 	err := kgdb.kvg.kv.BulkWrite(func(tx kvi.KVBulkWrite) error {
-		var bulkErr *multierror.Error
-		inserted := 0
-		for _, edge := range edges {
+		for _, edge := range batch {
 			if err := insertEdge(tx, kgdb.kvg.idx, kgdb.graph, edge.ToEdge()); err != nil {
 				bulkErr = multierror.Append(bulkErr, err)
 			} else {
@@ -227,24 +253,30 @@ const bulkAddBatchSize = 1000
 func (kgdb *KVInterfaceGDB) BulkAdd(stream <-chan *gdbi.GraphElement) error {
 	var bulkErr *multierror.Error
 	batch := make([]*gdbi.GraphElement, 0, bulkAddBatchSize)
-	// the records an element replaces are looked up and removed before the
-	// write batch is opened: the stores do not allow writes or consistent
-	// reads from inside it
+	// an element that replaces a stored one with another label or other
+	// endpoints is written in its own transaction before the batch is opened:
+	// the stores do not allow nested writes from inside a batch
 	flush := func() {
+		inserted := 0
+		rest := batch[:0]
 		for _, elem := range batch {
+			done := false
 			var err error
 			if elem.Vertex != nil {
-				err = kgdb.removeStaleVertex(elem.Vertex.ToVertex())
+				done, err = kgdb.replaceVertex(elem.Vertex.ToVertex())
 			} else if elem.Edge != nil {
-				err = kgdb.removeStaleEdge(elem.Edge.ToEdge())
+				done, err = kgdb.replaceEdge(elem.Edge.ToEdge())
 			}
 			if err != nil {
 				bulkErr = multierror.Append(bulkErr, err)
+			} else if done {
+				inserted++
+			} else {
+				rest = append(rest, elem)
 			}
 		}
 		err := kgdb.kvg.kv.BulkWrite(func(tx kvi.KVBulkWrite) error {
-			inserted := 0
-			for _, elem := range batch {
+			for _, elem := range rest {
 				if elem.Vertex != nil {
 					if err := insertVertex(tx, kgdb.kvg.idx, kgdb.graph, elem.Vertex.ToVertex()); err != nil {
 						bulkErr = multierror.Append(bulkErr, err)
